@@ -9,6 +9,7 @@ from vf.unit import Unit
 PRELUDE = r'''
 #![allow(unused_imports, unused_variables, dead_code, unused_mut, unused_parens)]
 use vstd::prelude::*;
+use std::collections::HashMap;
 
 verus! {
 // ---------------------------------------------------------------- abstract field (exec + spec)
@@ -97,10 +98,20 @@ pub struct AluOpRecord<F> {
 pub struct CircuitRunner<'a, F> {
     pub circuit: &'a Circuit<F>,
     pub witness: Vec<Option<F>>,
+    pub witness_rewrite: Option<HashMap<WitnessId, WitnessId>>,
     pub non_primitive_op_private_data: Vec<Option<NpoPrivateData>>,
     pub op_states: OpStateMap,
 }
 
+pub mod ax {
+    use super::*;
+    pub broadcast axiom fn witness_id_key_model()
+        ensures #[trigger] vstd::std_specs::hash::obeys_key_model::<WitnessId>();
+}
+
+pub open spec fn rwmap(o: Option<HashMap<WitnessId, WitnessId>>) -> Map<WitnessId, WitnessId> {
+    match o { Some(m) => m@, None => Map::empty() }
+}
 // ---------------------------------------------------------------- specification vocabulary
 pub open spec fn slot<F>(w: Seq<Option<F>>, id: WitnessId) -> Option<F> {
     if (id.0 as int) < w.len() { w[id.0 as int] } else { None }
@@ -187,6 +198,34 @@ def build():
     u.assume('Circuit<F> is represented by the fields the runner reads; error message strings dropped (R8)')
     u.assume('field laws used: (a-b)+b = a and a*(b*a^-1) = b for a != 0')
     u.text(PRELUDE.replace('@@TYPES@@', types_from_repo()))
+    u.text('verus! { broadcast use {ax::witness_id_key_model, vstd::std_specs::hash::group_hash_axioms}; }')
+    u.text(open(__file__.replace('run19.py', 'rw_spec.rs')).read())
+    # WitnessId::resolve, same contract as in unit opt
+    rs = u.extract('circuit/src/types.rs', r'impl WitnessId', 'resolve', 'WitnessId::resolve')
+    rs.sig_rewrite('R7', 'hashbrown::HashMap<Self, Self>', 'HashMap<WitnessId, WitnessId>')
+    rs.sig_rewrite('R12', '-> Self', '-> WitnessId')
+    rs.rewrite('R4', 'while let Some(&next) = rewrite.get(&cur) { cur = next; }',
+               'loop { match rewrite.get(&cur) { Some(next) => { cur = *next; } None => { break; } } }')
+    rs.requires('acyclic', 'acyclic(rewrite@)')
+    rs.ensures('root_fn', 'ret == root(rewrite@, self) && root_of(rewrite@, self, ret)')
+    rs.at_start('''
+        let ghost (stamp, bound) = choose|stamp: Map<WitnessId, nat>, bound: nat| stamped(rewrite@, stamp, bound);
+        let ghost mut steps: nat = 0;
+    ''')
+    rs.loop('loop {', invariant_except_break=[
+        ('stamped', 'stamped(rewrite@, stamp, bound)'), ('on_chain', 'iter(rewrite@, self, steps) == cur'),
+    ], ensures=[('exit_root', '!rewrite@.dom().contains(cur)'), ('exit_chain', 'iter(rewrite@, self, steps) == cur')],
+        decreases='if rewrite@.dom().contains(cur) { bound - stamp[cur] } else { 0 }')
+    rs.before('cur = *next;', '''proof {
+        lemma_iter_step(rewrite@, self, steps); steps = steps + 1;
+        assert(rewrite@.dom().contains(cur) && rewrite@[cur] == *next);
+        assert(stamp[cur] < bound);
+        if rewrite@.dom().contains(*next) { assert(stamp[cur] < stamp[rewrite@[cur]]); }
+    }''')
+    rs.at_end_expr('cur', 'proof { lemma_root(rewrite@, self, cur); }')
+    u.text('verus! {\nimpl WitnessId {')
+    u.emit(rs)
+    u.text('}\n}')
     R = 'circuit/src/tables/runner.rs'
     IMPL = r"impl<'a, F: Field> CircuitRunner<'a, F>"
 
@@ -201,7 +240,7 @@ def build():
             && (old(self).witness@[widx.0 as int].is_none() || old(self).witness@[widx.0 as int] == Some(value)))''')
     sw.ensures('ok_sets', 'ret is Ok ==> slot(final(self).witness@, widx) == Some(value)')
     sw.ensures('err_changes_nothing', 'ret is Err ==> final(self).witness@ == old(self).witness@')
-    sw.ensures('frame', 'final(self).circuit == old(self).circuit')
+    sw.ensures('frame', 'final(self).circuit == old(self).circuit && final(self).witness_rewrite == old(self).witness_rewrite')
 
     wv = u.extract(R, IMPL, 'witness_value', 'CircuitRunner::witness_value')
     wv.rewrite('R6', 'self.witness .get(widx.0 as usize) .and_then(|opt| opt.as_ref().map(Dup::dup))',
@@ -253,7 +292,7 @@ def build():
     ea.rewrite('R9', 'c.expect("HornerAcc requires c operand")', 'c.unwrap()')
     ea.rewrite('R6', 'c.unwrap_or(WitnessId(0))', '(match c { Some(x_) => x_, None => WitnessId(0) })')
     ea.requires('horner_shape', 'kind is HornerAcc ==> c.is_some() && intermediate_out.is_some()')
-    ea.ensures('monotone', 'monotone(old(self).witness@, final(self).witness@) && final(self).circuit == old(self).circuit')
+    ea.ensures('monotone', 'monotone(old(self).witness@, final(self).witness@) && final(self).circuit == old(self).circuit && final(self).witness_rewrite == old(self).witness_rewrite')
     ea.ensures('ok_means_relation_holds', 'ret is Ok ==> alu_holds(final(self).witness@, kind, a, b, c, out, intermediate_out)')
     ea.ensures('record_matches_witness', '''ret matches Ok(r) ==> r.kind == kind && r.a_index == a && r.b_index == b && r.out_index == out
             && Some(r.a_val) == slot(final(self).witness@, a) && Some(r.out_val) == slot(final(self).witness@, out)''')
@@ -269,10 +308,10 @@ def build():
     ex.rewrite('R5', 'for op in &self.circuit.ops {', 'for oi_ in 0..self.circuit.ops.len() { let op = &self.circuit.ops[oi_];')
     ex.rewrite('R6', 'executor.execute(inputs, outputs, &mut self.witness)?;', 'executor.execute(inputs, outputs, &mut self.witness)?;')
     ex.requires('ops_well_formed', 'forall|k: int| 0 <= k < old(self).circuit.ops@.len() ==> wf_op(#[trigger] old(self).circuit.ops@[k]) && op_slots_in_range(old(self).circuit.ops@[k], old(self).witness@.len() as int)')
-    ex.ensures('monotone', 'monotone(old(self).witness@, final(self).witness@) && final(self).circuit == old(self).circuit')
+    ex.ensures('monotone', 'monotone(old(self).witness@, final(self).witness@) && final(self).circuit == old(self).circuit && final(self).witness_rewrite == old(self).witness_rewrite')
     ex.ensures('ok_means_every_op_done', 'ret is Ok ==> forall|k: int| 0 <= k < old(self).circuit.ops@.len() ==> op_done(final(self).witness@, #[trigger] old(self).circuit.ops@[k])')
     ex.loop('for oi_ in 0..self.circuit.ops.len()', invariants=[
-        ('mono', 'monotone(old(self).witness@, self.witness@) && self.circuit == old(self).circuit'),
+        ('mono', 'monotone(old(self).witness@, self.witness@) && self.circuit == old(self).circuit && self.witness_rewrite == old(self).witness_rewrite'),
         ('wf', 'forall|k: int| 0 <= k < self.circuit.ops@.len() ==> wf_op(#[trigger] self.circuit.ops@[k]) && op_slots_in_range(self.circuit.ops@[k], old(self).witness@.len() as int)'),
         ('done', 'forall|k: int| 0 <= k < oi_ ==> op_done(self.witness@, #[trigger] self.circuit.ops@[k])'),
     ])
@@ -286,8 +325,71 @@ def build():
             }
         }''')
 
+    # ---------------------------------------------------------------- run: prefix up to the witness trace (R13)
+    rn = u.extract(R, IMPL, 'run', 'CircuitRunner::run[prefix]')
+    rn.sig_rewrite('R2', 'mut self', 'self')
+    rn.sig_rewrite('R13', '-> Result<Traces<F>, CircuitError>', '-> Result<Vec<F>, CircuitError>')
+    rn.rewrite_re('R2', r'\bself\.', 'self_.', min_count=4)
+    rn.at_start('let mut self_ = self;')
+    rn.truncate_after('let witness_trace = WitnessTrace::new(witness_values);', 'Ok(witness_values)',
+                      'suffix builds const/public/alu/non-primitive traces from the (no longer modified) witness table')
+    rn.rewrite('R13', 'let witness_trace = WitnessTrace::new(witness_values);', '')
+    rn.rewrite_re('R6m', r'let mut resolved: HashMap<WitnessId, WitnessId> = HashMap::with_capacity\(rewrite\.len\(\)\);\s*let mut root = \|canon: WitnessId\| \{.*?\}\)\s*\};',
+                  '/* memoised closure `root` = WitnessId::resolve on `rewrite` (memo elided: pure function) */', min_count=1, flags_dotall=True)
+    rn.rewrite('R6m', 'let r = root(*canon);', 'let r = canon.resolve(&rewrite);')
+    rn.rewrite('R5', 'for (dup, canon) in &rewrite {', 'for (dup, canon) in it: rewrite.iter() {')
+    rn.rewrite('R1', 'if let Some(ref val) = self_.witness[r.0 as usize] { self_.set_witness(*dup, *val)?; }',
+               'if let Some(val) = self_.witness[r.0 as usize] { self_.set_witness(*dup, val)?; }')
+    rn.rewrite('R5', 'for (i, value) in self_.witness.iter().enumerate() { witness_values.push((*value).ok_or(CircuitError::WitnessNotSetForIndex { index: i })?); }',
+               'for i in 0..self_.witness.len() { let value = &self_.witness[i]; witness_values.push(match *value { Some(v_) => v_, None => { return Err(CircuitError::Other); } }); }')
+    rn.requires('ops_well_formed', 'forall|k: int| 0 <= k < self.circuit.ops@.len() ==> wf_op(#[trigger] self.circuit.ops@[k]) && op_slots_in_range(self.circuit.ops@[k], self.witness@.len() as int)')
+    rn.requires('rewrite_acyclic_in_range', '''acyclic(rwmap(self.witness_rewrite)) && forall|k: WitnessId| #![auto] rwmap(self.witness_rewrite).dom().contains(k) ==>
+            (root(rwmap(self.witness_rewrite), rwmap(self.witness_rewrite)[k]).0 as int) < self.witness@.len()''')
+    rn.ensures('ok_means_every_slot_was_set', 'ret matches Ok(v) ==> v@.len() == self.witness@.len()')
+    rn.ensures('ok_means_rewritten_slots_equal_their_root', '''ret matches Ok(v) ==> ({ let rw = rwmap(self.witness_rewrite);
+            forall|d: WitnessId| #![auto] rw.dom().contains(d) && (d.0 as int) < v@.len() ==> v@[d.0 as int] == v@[root(rw, rw[d]).0 as int] })''')
+    rn.after('let alu_records = self_.execute_all()?;', 'let ghost w_exec = self_.witness@; let ghost rw0 = rwmap(self.witness_rewrite); proof { assert(self_.witness_rewrite == self.witness_rewrite); }')
+    rn.loop('for (dup, canon) in it: rewrite.iter()', invariants=[
+        ('mono', 'monotone(w_exec, self_.witness@) && self_.circuit == self.circuit && rewrite@ == rw0 && acyclic(rw0) && self_.witness@.len() == self.witness@.len()'),
+        ('range', 'forall|k: WitnessId| #![auto] rw0.dom().contains(k) ==> (root(rw0, rw0[k]).0 as int) < self.witness@.len()'),
+        ('pairs', 'forall|i: int| 0 <= i < it.seq().len() ==> rewrite@.contains_key(*(#[trigger] it.seq()[i]).0) && rewrite@[*it.seq()[i].0] == *it.seq()[i].1'),
+        ('all_keys', 'forall|k: WitnessId| rewrite@.contains_key(k) ==> exists|i: int| 0 <= i < it.seq().len() && *(#[trigger] it.seq()[i]).0 == k'),
+        ('done', '''forall|i: int| 0 <= i < it.index@ ==> ({ let d = *(#[trigger] it.seq()[i]).0; let r = root(rewrite@, rewrite@[d]);
+                    slot(self_.witness@, r).is_some() ==> slot(self_.witness@, d) == slot(self_.witness@, r) })'''),
+    ])
+    rn.before('let r = canon.resolve(&rewrite);', '''let ghost w_b = self_.witness@; let ghost k_ = it.index@ as int; proof {
+            assert(rewrite@.contains_key(*it.seq()[k_].0));
+            assert(rw0.dom().contains(*dup));
+            assert((root(rw0, rw0[*dup]).0 as int) < self.witness@.len());
+        }''')
+    rn.rewrite('SPEC-loop-tail', 'self_.set_witness(*dup, val)?; } }', '''self_.set_witness(*dup, val)?; }
+                proof {
+                    lemma_monotone_trans(w_exec, w_b, self_.witness@);
+                    lemma_slots_mono(w_b, self_.witness@);
+                    assert forall|i: int| 0 <= i < k_ + 1 implies ({ let d = *(#[trigger] it.seq()[i]).0; let r2 = root(rewrite@, rewrite@[d]);
+                            slot(self_.witness@, r2).is_some() ==> slot(self_.witness@, d) == slot(self_.witness@, r2) }) by {
+                        let d = *it.seq()[i].0; let r2 = root(rewrite@, rewrite@[d]);
+                        assert(rewrite@.contains_key(d));
+                        lemma_root_total(rewrite@, rewrite@[d]);
+                        assert(r2 != *dup);                     // roots are never rewritten, the loop only writes rewritten slots
+                        assert(slot(self_.witness@, r2) == slot(w_b, r2));
+                        if d != *dup { assert(slot(self_.witness@, d) == slot(w_b, d)); }
+                    }
+                }
+            }''')
+    rn.before('let mut witness_values', '''let ghost w_fin = self_.witness@;
+        proof {
+            assert forall|d: WitnessId| #![auto] rw0.dom().contains(d) && slot(w_fin, root(rw0, rw0[d])).is_some() implies slot(w_fin, d) == slot(w_fin, root(rw0, rw0[d])) by {
+                if self.witness_rewrite.is_some() { }
+            }
+        }''')
+    rn.loop('for i in 0..self_.witness.len()', invariants=[
+        ('len', 'witness_values@.len() == i && self_.witness@.len() == self.witness@.len()'),
+        ('vals', 'forall|k: int| 0 <= k < i ==> self_.witness@[k] == Some(#[trigger] witness_values@[k])'),
+    ])
+
     u.text("verus! {\nimpl<'a, F: Field> CircuitRunner<'a, F> {")
-    for f in (sw, wv, gw, sp, spr, ea, ex):
+    for f in (sw, wv, gw, sp, spr, ea, ex, rn):
         u.emit(f)
     u.text('}\n}')
     return u
